@@ -307,16 +307,24 @@ type c18Many struct {
 	Param int  `json:"param"`
 	Bytes bool `json:"bytes"`
 	Calls int  `json:"calls"`
+	Bits  int  `json:"bits,omitempty"` // input length (0 = the test's minimum)
 }
 
 func checkC18Many(c c18Many) (Outcome, error) {
 	t := tests[c.Test]
 	n := (max(minBitsFor(t, c.Param), 128) + 7) / 8 * 8
 	out := Outcome{Classes: []string{"many-calls", "many-calls:" + t.Key}, NonTrivial: true}
+	if c.Bits > 0 {
+		n = c.Bits / 2 // the two inputs have n and 2n+8 bits
+		if t.Key == "lincomp" {
+			n = 1000000
+		}
+		out.Classes = []string{"huge-input", "huge-input:" + t.Key}
+	}
 	var ins [2][]bool
 	var ind [2][]byte
 	for i := range ins {
-		ins[i] = gen.Seq{Family: "uniform", N: n * (1 + i) + 8*i, Seed: uint64(400 + 10*c.Test + i)}.Expand()
+		ins[i] = gen.Seq{Family: "uniform", N: n*(1+i) + 8*i, Seed: uint64(400 + 10*c.Test + i)}.Expand()
 		ind[i] = gen.Pack(ins[i])
 	}
 	call := func(i int) vals {
@@ -353,6 +361,22 @@ func TestC18ManyCalls(t *testing.T) {
 				}
 				cases = append(cases, c18Many{Test: td.Idx, Param: p, Bytes: by, Calls: n})
 			}
+		}
+	}
+	enumerate(t, "C18", cases, checkC18Many)
+}
+
+// TestC18Huge: repeatability on 12 million bits (results assembled from several partial results must not depend on the order in
+// which the parts finish): every test with its default parameter, both entry points, three calls each, bit-identical.
+func TestC18Huge(t *testing.T) {
+	part, parts := envInt("VERIF_PART", 0), envInt("VERIF_PARTS", 1)
+	var cases []c18Many
+	for _, td := range tests {
+		if td.Idx%parts != part {
+			continue
+		}
+		for _, by := range []bool{false, true} {
+			cases = append(cases, c18Many{Test: td.Idx, Param: td.Default, Bytes: by, Calls: 3, Bits: 12000000})
 		}
 	}
 	enumerate(t, "C18", cases, checkC18Many)
